@@ -8,17 +8,17 @@ T = {
  "C04": ("exploration","seeded deterministic runs (smooth, |x|, plateaus with ties, constant, boundary optimum, adversary); result compared with the complete call log", "6.C04"),
  "C05": ("exploration","seeded noisy runs (auto-detected, declared, specified heteroskedastic noise; noise_final_samples 0/1/several); tail of the call log vs x, yval_vec, fval, fsd, ysd_vec; noise-detection clause on the first two calls", "6.C05"),
  "C06": ("exploration","fault-free bounded-progress panels: seeded random rotated quadratics with default options (the property's family, the same family plus constant offsets up to 1e5, and warm starts at the minimiser); population thresholds of the property plus never-worse-than-start per run", "6.C06, 15.8"),
- "C07": ("exploration","exploration over process histories: each seeded scenario runs pristine, after a generated history (other optimisations, RNG consumption/reseeding, seterr, logger level, other constructions, ops between construction and run), under another simulated clock schedule and in a fresh interpreter with another PYTHONHASHSEED; call/result digests must be identical", "6.C07"),
+ "C07": ("exploration","exploration over process histories: each seeded scenario runs pristine, after a generated history (other optimisations, RNG consumption/reseeding, seterr, logger level, other constructions, ops between construction and run; in 30% of cases the run under test and the earlier runs also suffer injected GP-fit failures), under another simulated clock schedule and in a fresh interpreter with another PYTHONHASHSEED; call/result digests must be identical", "6.C07"),
  "C09": ("exploration","widest swarm (all modes x constraints x transforms x extreme knobs x hostile environments) plus non-finite GP predictions at the incumbent, single fit faults and clock faults; any exception escaping optimize()/constructor (other than ValueError for an invalid definition) is a violation classed by type and innermost pybads frame", "6.C09"),
  "C10": ("fault_enumeration","fault enumeration over target call indices: fault-free base runs in all noise modes give the call count and a phase label per call; re-runs place one fault (7 exception types, 10 invalid values, 4 bad pair forms, 8 bad SDs) at chosen logical positions (quick: >=1 per phase; thorough: every index)", "6.C10"),
  "C12": ("exploration","log machine: seeded operation histories on a real FunctionLogger (new/repeat/partially coinciding points, record on/off, add, failing calls, filter calls; cache sizes 1-8, noise levels 0/1/2, four transform kinds) compared field by field with a reference model after every operation; plus the logs of full runs vs the call log", "6.C12"),
  "C13": ("exploration","per-poll state-machine invariant: reference mesh rule recomputed from incumbent estimate before/after each poll, forcing value and recorded history; integrality/cap at every loop end; mesh unchanged between polls; recorded history and tol_mesh message", "6.C13"),
- "C14": ("exploration","generator workload: poll_mads_2n under a scheduler-owned enumerable random source (measured coverage of the finite choice space per (D, ratio)); plus every poll step of full runs matched against the basis actually generated", "6.C14"),
+ "C14": ("exploration","generator workload: poll_mads_2n under a scheduler-owned enumerable random source (measured coverage of the finite choice space per (D, ratio)); plus every poll step of full runs (incl. a noisy sub-population where the incumbent is switched back to earlier iterates) matched against the basis actually generated and the incumbent at that moment", "6.C14"),
  "C15": ("exploration","every local GP fit, incremental add and acquisition call of seeded runs in all noise modes: training pairs vs the log (noise as variance), nearest-neighbour/order/size against the metric at entry, LCB value recomputed with an independent prediction", "6.C15"),
  "C16": ("fault_enumeration","fault enumeration over GP.fit invocation indices and posterior updates of base runs (deterministic, declared, specified noise): single faults, bursts of 2-4, scattered plans, failing at entry or mid-fit; run must complete with C01/C02/C03(a-c)/C04 monitors silent", "6.C16"),
  "C17": ("exploration","every candidate-filter call of seeded runs (optimum on/outside the boundary emphasised) plus filter operations of the log machine on adversarial log states and box faces; output judged clause by clause; every evaluated point must be a row of the set its filter handed on; repeat evaluations attributed to the filter or not", "6.C17, 15.8"),
- "C18": ("exploration","every evolution-strategy call: returned value vs the minimum of all acquisition values computed in that call, candidates inside the mesh-rounded box and feasible, selection masks in range, hedge probabilities, <=1 evaluation per search step; population sizes 2-4096 and pruning constraints", "6.C18"),
- "C19": ("exploration","history/result of seeded runs in all noise modes vs the call log and final state (incl. mutation of optimiser state afterwards); container machine on IterationHistory/OptimizeResult against a dict-of-lists model", "6.C19"),
+ "C18": ("exploration","every evolution-strategy call: returned value vs the minimum of all acquisition values computed in that call, candidates inside the mesh-rounded box and feasible, selection masks in range, hedge probabilities, <=1 evaluation per search step; population sizes 2-4096 and pruning constraints; non-finite surrogate predictions injected into a subset (or all) of a population in 30% of runs", "6.C18"),
+ "C19": ("exploration","history/result of seeded runs in all noise modes vs the call log and final state (incl. mutation of optimiser state afterwards); container machine on IterationHistory/OptimizeResult (key and attribute reads, key and attribute writes) against a dict-of-lists model", "6.C19"),
  "C20": ("exploration","exploration over process histories: seeded sequences of construct/run/inspect/misspelt-construct on 1-4 instances (nested construction inside a target callback) against an independent evaluator of the option files; isolation and caller-object checks after every op", "6.C20"),
 }
 checks=[]
